@@ -2499,7 +2499,7 @@ let alias_read am q s =
   | QDir ->
     (s, (Ret (VNames
       (app s.index (app (reg_names s.registry) (akeys am.amap))))))
-  | QContains n0 -> read (QContains n0) s
+  | QContains n0 -> read (QContains (resolve am n0)) s
   | QNbytes ->
     (s,
       (match nbytes_of (resolve am) s with
